@@ -88,6 +88,12 @@ impl<I: Interner> RenderAsRust<I> for AdtDatum<I> {
             }
         );
 
+        // `one_zst` is not part of `AdtFlags`, it is recorded with the size
+        // and alignment
+        if s.db().adt_size_align(self.id).one_zst() {
+            writeln!(f, "#[one_zst]")?;
+        }
+
         // repr
         let repr = s.db().adt_repr(self.id);
 
